@@ -110,6 +110,11 @@ func oracleC15(c Case, r *Rng) []string {
 			k := r.Intn(len(d.Edges))
 			d.Edges = append(d.Edges[:k:k], d.Edges[k+1:]...)
 		}
+		// and different option sets, so that state leaking from one call into another shows in the result
+		d.P1 = []string{"greedy", "dfs"}[r.Intn(2)]
+		d.P2 = []string{"ns", "lp"}[r.Intn(2)]
+		d.P4 = []string{"sink", "valign", "packright", "bk"}[r.Intn(4)]
+		d.P5 = []string{"polyline", "straight", "ortho"}[r.Intn(3)]
 		cases[i] = d
 	}
 	ref := make([]graph.Layout, workers)
